@@ -522,6 +522,8 @@ def pty_session(ctx, work, ix, typed):
            "LANG": "C.UTF-8", "HISTORY_DELETE_DUPS": "0"}
     pid, fd = pty.fork()
     if pid == 0:
+        import fcntl, struct, termios
+        fcntl.ioctl(0, termios.TIOCSWINSZ, struct.pack("HHHH", 24, 120, 0, 0))   # a 0x0 window makes lineread panic
         os.chdir(root)
         os.execve(ctx.cicada, ["cicada"], env)
 
@@ -582,6 +584,10 @@ def layer3(ctx, res, V, work):
             elif r < 0.45:
                 w = " " + w                         # leading space
             typed.append(w)
+        k = rng.randint(0, len(typed) - 1)          # every session holds a repeat, a leading-space line, and
+        typed.insert(k + 1, typed[k])               # a line equal to the one before a leading-space line
+        typed.append(" " + rng.choice(words))
+        typed.append(rng.choice(words))
         sess.append(typed)
     with ThreadPoolExecutor(max_workers=4) as ex:
         got = list(ex.map(lambda a: pty_session(ctx, work, a[0], a[1]), enumerate(sess)))
